@@ -15,3 +15,4 @@ for P in "$D"/*/patch.diff; do
   echo "$line"
   git -C /repo checkout -- .
 done
+cd /verif && bin/check build >/dev/null 2>&1
